@@ -1,14 +1,77 @@
-"""The per-property manifest entries (claimed checks and not-yet-claimed ones)."""
+"""The per-property manifest entries."""
 
 
 def fill(add, not_built, KANI, BOTH):
-    add("C02", KANI,
-        "Every part-distance function of the real crate is proved equal to the frozen reference formula over its full input domain "
-        "(ring distance 2^24, Q-ratio and length distances 2^16 in every table configuration, checksum distances, bit-sliced body "
-        "distance over all 2^128 / 2^64 operand pairs, every compiled backend), and compare_with_config is proved to be their sum. "
-        "A universally quantified claim over up to 2^552 x 2^552 pairs needs a proof, not samples.",
-        "Trusted: Kani/CBMC, rustc, the /verif spec library (frozen constants). Assumed: stdarch's portable definitions of the x86 intrinsics "
-        "equal the hardware instructions (validated natively at setup); spurious simd_add/sub/mul overflow checks filtered by description.",
+    VER = "contract-based deductive verification: Verus (inductive invariants / lemmas on mechanically extracted real functions)"
+    add("C01", BOTH,
+        "Compositional proof that generation equals the reference TLSH algorithm: (a) every leaf (Pearson tables, bucket mapping, checksum update, bucket increment with whole-array frame, dibit classification, length code) is proved equal to the frozen reference over its full domain; (b) the real body of Generator::update, extracted mechanically, is proved by Verus to refine the byte-wise reference fold for ALL data lengths and ALL well-formed states (incl. saturation at 2^32-4); (c) finalize_with_options is proved per aspect (selection call pattern and rejection order, header, body) on EVERY generator state and option setting, with the quartile lemma (Verus) deriving the reference order statistics from select_nth_unstable's documented contract; (d) the integer Q-ratio statement is proved against the mathematical formula. A universally quantified statement over all byte strings and over states only multi-GiB inputs reach needs a proof.",
+        "Assumed: documented contract of <[T]>::select_nth_unstable; Intel-SDM models of 3 intrinsics (simd row); Verus callees by contracts that the Kani obligations discharge. NOT PROVED: the legacy f32 Q-ratio formula (binary32 divider equivalence is out of reach of the installed verifiers) - decided by token identity with the frozen reference expression, else by a native search; reported under non_solver_obligations.",
+        "DESIGN.md section 3 C01")
+    add("C02", BOTH,
+        "Every part-distance function of the real crate is proved equal to the frozen reference formula over its full input domain (ring distance 2^24, Q-ratio and length distances 2^16 in every table configuration, checksum distances, bit-sliced body distance over all 2^128 / 2^64 word pairs, every compiled x86 back end over all body pairs), the body-distance selection layer is proved to run exactly one back end on the two bodies for every CPU detection outcome, and compare_with_config is proved to be the sum of the four parts for all pairs of hashes and both modes.",
+        "Trusted: Kani/CBMC, rustc, the /verif spec library. Assumed: stdarch's portable definitions of the x86 intrinsics equal the hardware instructions; Kani's spurious overflow checks inside wrapping SIMD intrinsics (simd_add/sub/mul) are filtered by description. SAT cannot re-associate adder trees, so SSE2/SSE4.1 horizontal sums are proved against a tree-shaped expected value whose equality with the flat sum is a Verus lemma over the same text.",
         "DESIGN.md section 3 C02")
-    for pid in ["C01", "C03", "C04", "C05", "C06", "C07", "C08", "C09", "C10", "C11", "C12", "C13", "C14", "C15", "C16", "C17", "C18"]:
-        not_built[pid] = "check under construction in this round (design in DESIGN.md section 3); not claimed until its obligations discharge on the unchanged tree"
+    add("C03", BOTH,
+        "The update contract is history-free (view' = ref_feed(view, data), proved by Verus on the real body for all data and states); chunking independence is the Verus lemma feed(s, a++b) = feed(feed(s,a), b) lifted to any sequence of pieces (incl. empty and 1-3 byte pieces, which are the tail paths inside the proved function); finalize takes &self (no interior mutability: source scan) and the finalize obligations assert the generator is unchanged; clone is proved to be the identity on every state.",
+        "Assumed: callee contracts inside the Verus unit (discharged by Kani leaf obligations); likely()/unlikely() are the identity.",
+        "DESIGN.md section 3 C03")
+    add("C04", KANI,
+        "For every hash value of every variant: the hex serializer writes exactly the advertised length, 'T1' + upper-case hex with header bytes nibble-swapped (witness position), format-then-parse is the identity through every prefix mode, and every accepted string re-formats to its own upper-cased, prefix-normalised form; Display and FromStr are proved equal to the byte-level functions. Codec leaves are proved against their functional contracts in every table configuration and the glue is proved against those contracts.",
+        "Assumed for the default-feature (simd) build only: hex_simd::{encode,decode} (external, behind CPU detection; not executable by Kani). core::str::from_utf8 by its ASCII contract (the model asserts ASCII, which is also the soundness condition of from_utf8_unchecked under feature 'unsafe').",
+        "DESIGN.md section 3 C04/C05")
+    add("C05", KANI,
+        "from_str_bytes is proved total (all Kani panic/bounds/overflow checks) and to accept exactly the well-formed strings, for every byte string of the two acceptable lengths (all 256 byte values everywhere) in each prefix mode plus every other (mode, length <= LEN+2) combination; the value equals the denoted value; a wrong length is always InvalidStringLength and every other error applies to the input.",
+        "Inputs longer than LEN+2 only reach len() (by inspection of the length gate; stated in the obligation domain). Table variants of the digit decoders are separate leaf obligations per codec row.",
+        "DESIGN.md section 3 C04/C05")
+    add("C06", KANI,
+        "For every byte array of the right size: TryFrom then store_into_bytes is the identity, fields are checksum / length / Q-ratio (Q2 high nibble) / body in that order and agree with the accessors, slices of any other length 0..=SIZE+8 are a length error, quartile(i) reads bits 2(i%4) of byte len-1-i/4 without panicking for every i < NUM_BUCKETS (out of range: only the documented clean panic), clear_checksum zeroes ALL checksum bytes and nothing else.",
+        "Trusted: Kani/CBMC, spec library.",
+        "DESIGN.md section 3 C06")
+    add("C07", BOTH,
+        "Configuration independence by modularity: every function selected by a build configuration is proved against the SAME functional contract - Pearson/Q-ratio/length tables vs naive code, hex codec table variants (full/half/quarter/min), both bucket memory layouts (one Verus proof of update with the bucket count abstract), naive/SSE2/SSSE3/AVX2 aggregation, pseudo-SIMD 32/64 and SSE2/SSE4.1/AVX2 body distance - and the two run-time dispatchers are proved to return a contract-satisfying back end's result for EVERY CPU detection outcome.",
+        "ARGUED, not explored: the thread-schedule clause (Kani has no threads): the init closure is a pure function of the CPU feature set, every value it can return satisfies the same contract, OnceLock returns one of them (assumed std contract). Non-x86 back ends are not compiled here. Intel-SDM models of 3 intrinsics are assumed.",
+        "DESIGN.md section 3 C07, section 5")
+    add("C08", BOTH,
+        "Reflexivity, symmetry, zero-iff-equal, bounds (attained, by cover witnesses), mode consistency and the clear_checksum relation are proved as lemmas over the C02 contracts: per part on the real functions / frozen spec over full domains (Kani), lifted to the total by Verus linear-arithmetic lemmas; max_distance is proved to be the sum of the part maxima.",
+        "Same as C02.",
+        "DESIGN.md section 3 C08")
+    add("C09", KANI,
+        "FuzzyHashLengthEncoding::new is proved over all 2^32 lengths (Some iff len <= 4,224,281,216; the code is the unique index with TOPVAL[c-1] < len <= TOPVAL[c], witness form; includes the three invariant!() sites and core's binary_search); range()/is_valid over all 256 codes; tiling, monotonicity and membership<=>code as spec lemmas on the frozen table; generated hashes carry the code of the fed length (finalize.header.* + Verus length lemma).",
+        "The non-CLZ cfg branch of new() is not compiled on x86_64 and is not covered.",
+        "DESIGN.md section 3 C09")
+    add("C10", BOTH,
+        "DataLengthValidity and the published limits are proved equal to the reference over all lengths/variants/modes; the acceptance gate of finalize (which rejection, in which order) is proved for every state and option setting; the lattice laws (more permissive never rejects an accepted input, too-large never waivable, QUARTER implies HALF) are Verus lemmas on that gate; the payload aspects show that an accepted input's hash does not depend on the permissive flags.",
+        "Assumed: select_nth_unstable's documented contract.",
+        "DESIGN.md section 3 C10")
+    add("C11", BOTH,
+        "Entirely inside the update contract: the Verus proof of the real body covers the saturation early return, truncation of the crossing piece, tail rewrite after truncation, usize->u32 clamping and absence of += overflow for EVERY prior length (no 4 GiB feed needed); Verus lemma: processed length is exact below 2^32 and None from 2^32 on; finalize gate: TooLargeInput iff the fed length exceeds the maximum, code 169 at exactly the maximum.",
+        "Same assumptions as C01(b).",
+        "DESIGN.md section 3 C11")
+    add("C12", BOTH,
+        "hash_stream_common, extracted mechanically, is proved by Verus against an abstract reader history (unbounded: any number of partial reads, interruptions, errors, any stream length) and an abstract generator: result = result_of(all delivered bytes); an I/O error is returned only for a non-Interrupted reader error. A BOUNDED Kani twin (<= 2/3 reader events) on the real function supplies replayable counterexamples and is reported as bounded.",
+        "Assumed: Read implementors return n <= buf.len() in the Verus unit (violators: C17 obligations); File: Read delivers the file's bytes (hash_file*: structure only); termination is not claimed. The defect found here (Interrupted not retried) was repaired in /repo 598b0a2.",
+        "DESIGN.md section 3 C12, section 4")
+    add("C13", KANI,
+        "compare_with<T> is generic, so it is proved against the trait's contract with a ghost hash type (arbitrary recorded parser outcomes and distance): parse left first, then right; side-tagged error; distance of left to right. FromStr of the real types is proved equal to from_str_bytes(.., None), whose contract (C05) is case- and prefix-insensitive.",
+        "compare = compare_with::<Tlsh> by definition (one-line wrapper, checked on the length-gate path only).",
+        "DESIGN.md section 3 C13")
+    add("C14", KANI,
+        "For every hash value, each form (binary, hex, hex+prefix) and a buffer of symbolic length 0..=N+8 with arbitrary prior content: BufferIsTooSmall iff shorter than the advertised size, else Ok(size), the first size bytes are the representation and every byte beyond is unchanged (witness index). The encoders' own contracts (exactly 2N bytes written, rest of the destination untouched) are proved per table configuration for every destination length 2N..=2N+8.",
+        "Buffers longer than N+8 are not explored (the functions only ever slice by constants after the gate); simd row: hex_simd::encode by assumed contract.",
+        "DESIGN.md section 3 C14")
+    add("C15", BOTH,
+        "In the strict-parser build the parse/TryFrom obligations are discharged with acceptance = lenient and code < 170 and (48-bucket: checksum <= 48), equal values, and applicable error kinds; the generator side is proved in any build: the folded Pearson table yields <= 48 (leaf), update preserves it (Verus carries the checksum through ck_upd), finalize copies the checksum and emits a code < 170, and format-then-parse is the identity in the strict row.",
+        "Inputs with several simultaneous defects may report any applicable error (the property fixes single-reason inputs only).",
+        "DESIGN.md section 3 C15")
+    add("C16", KANI,
+        "At the serde data-model boundary, against a most-general mock Serializer/Deserializer: serialize makes exactly one call - serialize_str of the 'T1' hex text (human-readable) or serialize_bytes of the binary form; deserialize accepts exactly what the matching parser accepts with the same value, every other visitor event is an error, and nothing panics - in the serde, serde+strict-parser and serde-buffered builds.",
+        "The format crates (serde_json, ciborium, postcard) are external and trusted. The defect found here (bytes visitor unwrap under strict-parser) was repaired in /repo 881a2ee.",
+        "DESIGN.md section 3 C16, section 4")
+    add("C17", BOTH,
+        "Every obligation runs with Kani's panic/overflow/bounds/pointer checks, so each contract carries 'and executes without panic or UB for every input satisfying the representation invariant', which update/new preserve (so any call SEQUENCE stays inside the proved preconditions); invariant!() sites are obligations in the safe rows and must be unreachable in the 'unsafe' rows; an adversarial Read implementation may only cause a clean panic; SIMD loads are pointer-checked; from_utf8_unchecked's ASCII precondition is asserted.",
+        "Outside CBMC's model: data races, uninitialised padding, aliasing-model violations, anything inside hex_simd. The defect found here (unreachable_unchecked reachable through a misreporting reader under feature 'unsafe') was repaired in /repo 7de7b04.",
+        "DESIGN.md section 3 C17, section 5")
+    add("C18", BOTH,
+        "Frame condition 'the global allocator is never entered': in every full-domain core-operation obligation (new, processed_len, finalize, parse accept/reject, TryFrom, store_into_*, compare, accessors, dispatchers) alloc::alloc::{alloc, alloc_zeroed, realloc} are stubbed by panicking functions; update: its extracted body calls only allocation-free leaves and core slice copies (Verus call graph) plus a bounded Kani run; the no_std / no-alloc builds are build obligations (rustc is the checker).",
+        "hex_simd calls (simd row) are assumed allocation-free. The bounded update run and the build obligations are not counted as discharged solver obligations.",
+        "DESIGN.md section 3 C18")
